@@ -243,7 +243,9 @@ def run_file(ctx, spec, rng, label, vol):
                     tag = (cname, mode, "slice", a, b, k)
                     if r != exp:
                         key = "slice-mismatch"
-                        if mode == "lazy" and k != 0:
+                        if mode == "lazy" and n == 0:
+                            key = "d14-empty-channel-slice"
+                        elif mode == "lazy" and k != 0:
                             st, sp, kk = slice(a, b, k).indices(n)
                             lo, hi = (st, sp) if kk > 0 else (sp + 1, st + 1)
                             key = classify(segs, max(lo, 0), max(lo, hi, 0))
